@@ -6,7 +6,8 @@ EXTENDS PolicyFacts
 S(kt, kd, vt) == [kt |-> kt, kd |-> kd, vt |-> vt]
 
 (* quick tier, cover mode: every store x every operation, one step.  Every key type occurs
-   alone and in every position of a compound key; value lists of length 0, 1 and 2. *)
+   alone and in every position of a compound key; value lists of length 0, 1 and 2; plus
+   the two key-less (singleton) forms. *)
 SchemasQuick ==
   { S(<<"int">>,                  <<3>>,     <<"int">>),
     S(<<"string">>,               <<3>>,     <<>>),
@@ -16,7 +17,9 @@ SchemasQuick ==
     S(<<"string", "int">>,        <<3, 2>>,  <<>>),
     S(<<"int", "string">>,        <<2, 3>>,  <<>>),
     S(<<"id", "enum">>,           <<2, 2>>,  <<"string">>),
-    S(<<"enum", "bool", "string">>, <<2, 2, 2>>, <<>>) }
+    S(<<"enum", "bool", "string">>, <<2, 2, 2>>, <<>>),
+    S(<<>>, <<>>, <<"int">>),        \* singleton facts: `fact F[]=>{v int}`
+    S(<<>>, <<>>, <<>>) }
 
 (* thorough tier, cover mode: SchemasQuick again with MaxFacts = 4, and these with MaxFacts = 3
    (more type positions, id/enum values, two strings) *)
